@@ -265,6 +265,35 @@ def monitors(cfg, trace_seg_all, labels, end):
             ok = [x for x in xexit.get(p, []) if x[1]]
             if not ok or ok[0][0] > k0:
                 errs.append(("C02", "node %s entered before its dependency %s returned" % (n, p)))
+    # C02, second sentence: the values a node receives are its dependencies' return values after the
+    # indexing the user wrote (None for a deactivated dependency, None for one outside the execution)
+    from .terms import same as _same
+    for n, ks in xenter.items():
+        seen = ks[0][2]
+        for i_, (p, key) in enumerate(cfg.get("refs", {}).get(n, [])):
+            if i_ >= len(seen):
+                break
+            got = seen[i_]
+            if p in skipped:
+                exp = None
+            elif p in part:
+                okx = [x for x in xexit.get(p, []) if x[1]]
+                if not okx:
+                    continue
+                exp = okx[0][2]
+                try:
+                    for k_ in key:
+                        exp = exp[k_]
+                except BaseException:  # noqa: BLE001
+                    continue
+            elif p not in cfg.get("results_keys", [p]):
+                exp = None
+            else:
+                continue
+            if isinstance(got, tuple) and len(got) == 2 and got[0] == "<raises>":
+                continue
+            if not _same(got, exp) and not (got == exp and type(got) is type(exp) and not hasattr(got, "_bin")):
+                errs.append(("C02", "node %s received %r for its dependency %s%s, which returned %r" % (n, got, p, key, exp)))
     # C04 / C05 on real function-body intervals
     live = set()
     for e in trace_seg_all:
